@@ -133,7 +133,17 @@ func suiteV12(c *vctx) {
 				continue
 			}
 			srv = httptest.NewServer(http.HandlerFunc(func(w http.ResponseWriter, rq *http.Request) {
-				if atomic.LoadInt32(&masterDown) != 0 { // the master's front end is failing for a while
+				switch atomic.LoadInt32(&masterDown) { // the master is failing for a while
+				case 1: // its front end answers with an error status
+					http.Error(w, "upstream unavailable", http.StatusServiceUnavailable)
+					return
+				case 2: // the connection is dropped without an answer (master restarting, reset by a proxy)
+					if hj, ok := w.(http.Hijacker); ok {
+						if cn, _, err := hj.Hijack(); err == nil {
+							cn.Close()
+							return
+						}
+					}
 					http.Error(w, "upstream unavailable", http.StatusServiceUnavailable)
 					return
 				}
@@ -260,7 +270,7 @@ func suiteV12(c *vctx) {
 		// attempts may not use anything up
 		outage := mode == "remote" && r.Bool()
 		if outage {
-			atomic.StoreInt32(&masterDown, 1)
+			atomic.StoreInt32(&masterDown, int32(1+r.Intn(2)))
 			for k := 0; k < 14; k++ {
 				u := []string{"root", "alice", "carol"}[k%3]
 				a.iface.Authenticate(u, pw[u])
